@@ -1,24 +1,23 @@
 SPECIFICATION Spec
 CONSTANTS MaxLinks = 2
- Shapes = {1,2,3}
- PPPs = {1,2,9}
- S0s = {1,2,3}
+ Shapes = {1,3}
+ PPPs = {2,9}
+ S0s = {1}
  ETs = {0,1}
- Muxes = {0,1,2}
- BIdx = {1}
+ Muxes = {0,1}
+ BIdx = {1,2}
  DiscardVi = "link"
  Streaming = FALSE
  PinSer = FALSE
  PinBos = FALSE
  PLen = 2
- ReadLens = {1,100}
+ ReadLens = {100}
  MaxCalls = 2
- Ops = {"read","raw","pcm","page"}
+ Ops = {"read","lap","raw"}
 INVARIANT NoLoopBoundHit
 INVARIANT OpenOK
 INVARIANT PositionTruth
-INVARIANT ReadContinues
 INVARIANT ReadOutcome
-INVARIANT InOrder
+INVARIANT LapOutcome
 INVARIANT SeekOutcome
 CHECK_DEADLOCK FALSE
